@@ -26,12 +26,19 @@ func c01Case(t *testing.T, root *vw.Rng, ci int, tr *vw.Trace) {
 	r := root.Fork(uint64(ci))
 	repl := r.PickInt(1, 2, 2, 2, 3, 3, 3, 3, 3, 3, 3, 3)
 	nTS := repl + r.PickInt(1, 1, 2)
-	d := vc.NewDriver(r, nTS, []bool{r.Chance(4, 5), r.Chance(1, 2)}, id)
+	// wide cases: blobs of 5-6 tracts, operations inside tracts far apart and across tract boundaries, the
+	// writer's tract cache on (its cache gets gaps: a lookup learns the tracts it asked for plus the next one)
+	wide := r.Chance(3, 10)
+	d := vc.NewDriver(r, nTS, []bool{wide || r.Chance(4, 5), r.Chance(1, 2)}, id)
 	defer d.Cl.Close()
+	d.AckCheck, d.AllTracts = true, true
 	d.Big = r.Chance(1, 5)
 	d.MaxTracts = r.PickInt(1, 2, 3, 3)
 	if d.Big && d.MaxTracts < 2 {
 		d.MaxTracts = 2
+	}
+	if wide {
+		d.Wide, d.Big, d.MaxTracts = true, true, r.PickInt(5, 5, 6)
 	}
 	nb := r.PickInt(1, 1, 2)
 	for i := 0; i < nb; i++ {
